@@ -3,6 +3,7 @@ killed when it exceeds the budget (a signal cannot interrupt a single long regex
 from __future__ import annotations
 
 import multiprocessing as mp
+import contextlib
 import os
 import tempfile
 import time
@@ -77,12 +78,15 @@ def _serve(conn, workdir):
         try:
             opts = dict(opts or {})
             log_contents = bool(opts.pop("log_contents", False))        # the tools' --log-ksr-contents / --log-previous-skr-contents switches
+            debug_ctx = vlib.debug_logging() if opts.pop("debug", False) else contextlib.nullcontext()      # the tools' --debug switch
             if kind == "ksr":
                 pol = RequestPolicy(**opts) if opts else RequestPolicy()
-                obj = kload.load_ksr(path, pol, raise_original=True, log_contents=log_contents)
+                with debug_ctx:
+                    obj = kload.load_ksr(path, pol, raise_original=True, log_contents=log_contents)
             else:
                 pol = ResponsePolicy(**opts) if opts else ResponsePolicy()
-                obj = sload.load_skr(path, pol, log_contents=log_contents)
+                with debug_ctx:
+                    obj = sload.load_skr(path, pol, log_contents=log_contents)
             ok_validated = validated["ok"] and validated["id"] == id(obj)
             # "full validation" includes the signatures (when the policy asks for them): each is re-verified here with the cryptography library alone,
             # under the key the returned object itself lists for the signature's identifier
